@@ -26,6 +26,7 @@ import RTV.Drv.ZhDateTime
 import RTV.Drv.DateParser
 import RTV.Drv.NumExtract
 import RTV.Drv.NumBig
+import RTV.Drv.NumOrd
 import RTV.Drv.DateFront
 /-! Model driver: one operation per input line (tab-separated), one answer line per operation.
 Run compiled (`.lake/build/bin/rtvdriver`) or with `lake env lean --run Driver.lean`. -/
@@ -62,6 +63,7 @@ def dispatch (line : String) : String :=
       <|> dispatchUnitExtract op args
       <|> dispatchNumExtract op args
       <|> dispatchNumBig op args
+      <|> dispatchNumOrd op args
       <|> dispatchDateFront op args
       -- <|> dispatchOther op args   (one alternative per layer)
       ).getD "bad-op"
